@@ -378,8 +378,8 @@ def state_tag_agrees(ctx, db, rid='C01.state-tag-agrees'):
                     bad = bad or 'member %s is stored but the tag says %s: readers will interpret the bytes as another type' % (members[0], tag)
                 elif not members and not (inst_void and tag == 'value'):
                     bad = bad or 'the tag %s is set without a payload member having been written' % tag
-                if tags and tr.index(tags[0]) < max([i for i, it in enumerate(tr) if it.k in ('new', 'write') and it is not tags[0] and re.search(r'\._(value|ptr_value|exception)', (it.get('path') or '') + str((it.get('placement') or [{}])[0].get('path') if it.get('placement') else ''))] or [-1]):
-                    bad = bad or 'the tag is stored before the payload (an exception thrown by the value constructor would leave a tag without payload)'
+                if tags and tr.index(tags[0]) < max([i for i, it in enumerate(tr) if it.k in ('new',) and it is not tags[0] and re.search(r'\._(value|ptr_value|exception)', (it.get('path') or '') + str((it.get('placement') or [{}])[0].get('path') if it.get('placement') else ''))] or [-1]):
+                    bad = bad or 'the tag is stored before the payload is constructed (an exception thrown by the value constructor would leave a tag without payload)'
             k = (f['key'], bad)
             if k in seen:
                 continue
